@@ -616,9 +616,11 @@ impl<Backing : AsRef<[u32]> + AsMut<[u32]>> DrawTarget<Backing> {
     /// group opacity or blend effects.
     pub fn push_layer_with_blend(&mut self, opacity: f32, blend: BlendMode) {
         let rect = self.clip_bounds();
+        // an empty clip (e.g. disjoint clip rects) has a negative width or height
+        let size = rect.size();
         self.layer_stack.push(Layer {
             rect,
-            buf: vec![0; (rect.size().width * rect.size().height) as usize],
+            buf: vec![0; (size.width.max(0) * size.height.max(0)) as usize],
             opacity,
             blend
         });
